@@ -10,7 +10,21 @@ use crate::scn::{part, Cfg, ChatScn};
 use crate::world::{Life, World};
 use std::collections::{BTreeMap, BTreeSet};
 
-const CHANS: [&str; 2] = ["#x", "#y"];
+/// The channels a scenario can touch: every channel name in its alphabet and configuration.
+fn chans_of(scn: &ChatScn) -> Vec<String> {
+    let mut out: BTreeSet<String> = BTreeSet::new();
+    for c in &scn.cfg.channels {
+        out.insert(c.name.clone());
+    }
+    for (_, t) in &scn.alphabet_for {
+        for w in t.split(|c: char| c == ' ' || c == ',') {
+            if (w.starts_with('#') || w.starts_with('&')) && w.len() > 1 {
+                out.insert(w.to_string());
+            }
+        }
+    }
+    out.into_iter().collect()
+}
 
 fn scenario(name: &str, multi_prefix: bool) -> ChatScn {
     let mut s = ChatScn::new(
@@ -88,7 +102,7 @@ fn views_agree(scn: &ChatScn, w: &mut World, v: &View, goals: &mut BTreeSet<Stri
                 Err(e) => return vec![finding("machinery", e.0)],
             }
         }
-        for ch in CHANS {
+        for ch in chans_of(scn).iter().map(|c| c.as_str()) {
             let members: BTreeSet<String> = v.m.chans.get(ch).map(|c| c.members.keys().cloned().collect()).unwrap_or_default();
             // "to a client entitled to see them": an outsider of a secret channel is shown nothing
             let hidden = v.m.chans.get(ch).map_or(false, |c| c.fs) && !v.nick(viewer).map_or(false, |n| members.contains(n));
@@ -184,7 +198,7 @@ fn roster_reconstructs(scn: &ChatScn, pre: &View, obs: &StepObs, post: &View, go
         }
         let my_pre = pre.nick(s).unwrap().to_string();
         let msgs: Vec<_> = obs.lines[s].iter().filter_map(|l| parse_server_line(l)).collect();
-        for ch in CHANS {
+        for ch in chans_of(scn).iter().map(|c| c.as_str()) {
             let was_member = pre.m.chans.get(ch).map_or(false, |c| c.members.contains_key(&my_pre));
             let mut me = my_pre.clone();
             let mut roster: Option<BTreeSet<String>> = if was_member { Some(pre.m.chans[ch].members.keys().cloned().collect()) } else { None };
@@ -321,6 +335,24 @@ pub fn invisible(full: bool) -> ChatScn {
     s
 }
 
+/// A local channel (`&` prefix) is a channel like any other in all three views.
+pub fn local_channel(full: bool) -> ChatScn {
+    let mut s = scenario("c04-local-channel", false);
+    s.alphabet_for.clear();
+    for slot in 0..3 {
+        for t in ["JOIN &z", "PART &z", "JOIN #x,&z", "KICK &z {peer}", "NICK {alt}"] {
+            s.alphabet_for.push((slot, t));
+        }
+        if full {
+            s.alphabet_for.push((slot, "QUIT"));
+            s.alphabet_for.push((slot, "MODE &z +a {peer}"));
+        }
+    }
+    s.ends = vec![];
+    s.goals = vec!["views-compared", "two-members", "roster-join", "roster-kick"];
+    s
+}
+
 pub fn quota() -> ChatScn {
     let mut s = scenario("c04-quota", false);
     s.cfg.max_joins = Some(1);
@@ -352,6 +384,7 @@ pub fn plan(quick: bool) -> Plan {
     parts.push(Part::Bfs(Box::new(ghost(!quick)), lim(if quick { 6 } else { 8 }, 2_000_000, if quick { 20.0 } else { 600.0 })));
     parts.push(Part::Bfs(Box::new(secret(!quick)), lim(if quick { 4 } else { 6 }, 2_000_000, if quick { 20.0 } else { 600.0 })));
     parts.push(Part::Bfs(Box::new(quota()), lim(if quick { 4 } else { 6 }, 2_000_000, if quick { 20.0 } else { 600.0 })));
+    parts.push(Part::Bfs(Box::new(local_channel(!quick)), lim(if quick { 4 } else { 6 }, 2_000_000, if quick { 20.0 } else { 600.0 })));
     parts.push(Part::Bfs(Box::new(invisible(!quick)), lim(if quick { 4 } else { 6 }, 2_000_000, if quick { 20.0 } else { 600.0 })));
     parts.push(Part::Bfs(Box::new(last_kick()), lim(if quick { 5 } else { 7 }, 2_000_000, if quick { 20.0 } else { 600.0 })));
     if quick {
